@@ -153,6 +153,75 @@ def invariant_core():
     return cases
 
 
+def guard_rejection_core(picks=False):
+    """Guards that RAISE a rejection instead of yielding a truth value (rtable): preconditions and invariants of
+    the agent's behaviour, of sub-behaviours started by do / do-for / choose / shuffle (the guards of ALL items
+    are evaluated), invariants re-checked after actions, under try/interrupt and do-until, preconditions of
+    sub-scenarios and guards of the agents they create.  A rejection raised inside a guard rejects the simulation
+    also when raiseGuardViolations is set; a guard listed before it that is false wins."""
+    cases = []
+    rrows = [[True], [False, True], [False, False, True, False], [False]]
+    frows = [[True], [True, False], [False]]
+    sub = {"pre": ["r", "f"], "inv": [], "body": [["take", 5], ["take", 6]]}
+    sub2 = {"pre": ["f", "r"], "inv": [], "body": [["take", 7]]}
+    sub3 = {"pre": [], "inv": ["r"], "body": [["take", 8], ["take", 8], ["take", 8]]}
+    mains = [
+        ({"pre": ["r"], "inv": [], "body": [["take", 1]]}, []),
+        ({"pre": [], "inv": ["r"], "body": [["take", 1], ["take", 2], ["take", 3]]}, []),
+        ({"pre": [], "inv": [], "body": [["take", 1], ["do", 2], ["take", 4]]}, [sub]),
+        ({"pre": [], "inv": [], "body": [["take", 1], ["do", 2], ["take", 4]]}, [sub2]),
+        ({"pre": [], "inv": [], "body": [["take", 1], ["dofor", 2, 2, "steps"], ["take", 4]]}, [sub3]),
+        ({"pre": [], "inv": [], "body": [["take", 1], ["choose", [[2, 1], [3, 1]]], ["take", 4]]}, [sub2, {"pre": [], "inv": [], "body": [["take", 9]]}]),
+        ({"pre": [], "inv": [], "body": [["shuffle", [[2, 1], [3, 1]]], ["take", 4]]}, [sub3, {"pre": ["f"], "inv": [], "body": [["take", 9]]}]),
+        ({"pre": [], "inv": ["r"], "body": [["try", [["take", 1], ["take", 1], ["take", 1]], [["a", [["take", 2]]]]], ["take", 4]]}, []),
+        ({"pre": [], "inv": ["f", "r"], "body": [["take", 1], ["dountil", 2, "a"], ["take", 4]]}, [{"pre": [], "inv": [], "body": [["take", 9], ["take", 9], ["take", 9]]}]),
+    ]
+    for mi, (main, subs) in enumerate(mains):
+        if (mi in (5, 6)) != picks:       # the choose / shuffle programs are random: they belong to C19's law check
+            continue
+        for rr in rrows:
+            for fr in frows:
+                cases.append({
+                    "defs": [main] + subs, "agents": [1], "monitors": [], "records": [],
+                    "termWhen": [], "termSimWhen": [], "termAfter": [],
+                    "maxSteps": 6, "dt": [1, 1],
+                    "table": {"T": [True], "F": [False], "r": [True], "f": fr, "a": [False, False, True, False]},
+                    "rtable": {"r": rr}, "sched": [[1]],
+                })
+    # scenario-level guards
+    beh = {"pre": [], "inv": [], "body": [["while", "T", [["take", 1]]]]}
+    agent = {"pre": ["r"], "inv": [], "body": [["take", 3], ["take", 3]]}
+
+    def sd(**kw):
+        d = {"pre": [], "termWhen": [], "termSimWhen": [], "termAfter": [], "records": [], "monitors": [],
+             "hascompose": False, "compose": [], "objs": []}
+        d.update(kw)
+        return d
+
+    for variant in range(4):
+        if (variant == 2) != picks:
+            continue
+        for rr in rrows:
+            for fr in frows[:2]:
+                if variant == 0:     # the top-level scenario's own precondition raises
+                    sdefs = [sd(pre=["r"], hascompose=True, compose=[["wait"], ["wait"]])]
+                elif variant == 1:   # a sub-scenario's precondition raises / is false first
+                    sdefs = [sd(hascompose=True, compose=[["wait"], ["sdo", [2]], ["wait"]]), sd(pre=["f", "r"], termAfter=[2, "steps"])]
+                elif variant == 2:   # choose over sub-scenarios: the guards of all items are evaluated
+                    sdefs = [sd(hascompose=True, compose=[["wait"], ["schoose", [[2, 1], [3, 1]]], ["wait"]]),
+                             sd(pre=["f"], termAfter=[2, "steps"]), sd(pre=["r"], termAfter=[1, "steps"])]
+                else:                # the guard of an agent created by a sub-scenario raises
+                    sdefs = [sd(hascompose=True, compose=[["wait"], ["sdo", [2]], ["wait"]]), sd(objs=[2], termAfter=[2, "steps"])]
+                cases.append({
+                    "defs": [beh, agent], "agents": [1], "sdefs": sdefs, "top": 1,
+                    "monitors": [], "records": [], "termWhen": [], "termSimWhen": [], "termAfter": [],
+                    "maxSteps": 5, "dt": [1, 1],
+                    "table": {"T": [True], "F": [False], "r": [True], "f": fr},
+                    "rtable": {"r": rr}, "sched": [[1, 2]], "impl": 0,
+                })
+    return cases
+
+
 def reentry_core():
     """A `do` statement inside a loop whose block is abandoned (abort / break / continue in a handler, a do-for /
     do-until limit) while the sub-behaviour runs, and which is reached again afterwards: printed with one
@@ -272,7 +341,7 @@ def main(tier):
     # (created when the invoking behaviour starts): the expectation is the same -- a sub-behaviour that finished,
     # or was stopped because its block was abandoned or its limit reached, can be started again
     shared = [dict(c, shared=True) for c in (core + nested_flow_core() + invariant_core())[seed() % 3 :: 3] if "sdefs" not in c]
-    cases = cases + shared + reentry_core()
+    cases = cases + shared + reentry_core() + guard_rejection_core()
     global_rows = c12.run_batch(ck, cases, need_actions=["Setup", "BehaviorResume", "ExecuteActions", "Finish"], ideal_invariants=True)
     # as-implemented twins (spec deviation UnwindReturnImpl) for the cases that satisfy its trigger
     trig = [flow_triggers(c) for c in cases]
